@@ -1172,10 +1172,28 @@ def seq_remove_variants(ctx):
     ex, st = ctx.ex, ctx.st
     v, loc = seq_loc(ex, st, ctx.args[0])
     i = concrete(ctx.args[1].t)
+    is_vec = ctx.callee.startswith('Vec::')
+    if isinstance(v, SeqV) and v.items is not None and i is None and is_vec and ctx.callee.endswith('::remove') and len(v.items) <= 8:
+        # symbolic index into an explicit list: Vec::remove panics unless index < len; one successor per position
+        idx = ctx.args[1].t
+        ex.require(st, z3.ULT(idx, BV(len(v.items), 64)), 'index', 'removal index out of bounds')
+        outs = []
+        for k in range(len(v.items)):
+            t, _f = ex.branch(st, idx == BV(k, 64))
+            if not t:
+                continue
+            s2 = st.fork()
+            ex.assume(s2, idx == BV(k, 64))
+            items = list(v.items)
+            x = items.pop(k)
+            ex.store(s2, loc[0], loc[1], SeqV.from_items(items, v.elem_ty, v.kind))
+            outs.append((s2, x))
+        if not outs:
+            raise PathDead()
+        return outs
     if not (isinstance(v, SeqV) and v.items is not None) or i is None:
         return NotImplemented
     items = list(v.items)
-    is_vec = ctx.callee.startswith('Vec::')
     if i >= len(items):
         if is_vec:
             ex.require(st, False, 'index', 'removal index out of bounds')
@@ -1251,3 +1269,184 @@ def option_cloned(ctx):
     if p is None:
         return v
     return Agg('Option', {}, v.discr, {1: {0: ex.deref1(st, p)}}, v.vnames)
+
+
+@contract(r'^(?:std::option::)?Option::<.*>::ok_or_else::<.*>$')
+def option_ok_or_else(ctx):
+    """Option::ok_or_else(f): Some(x) -> Ok(x); None -> Err(f()) with the real closure body"""
+    ex, st = ctx.ex, ctx.st
+    v, _ = to_enum(ex, st, ctx.args[0])
+    clo = ctx.args[1]
+    body = ex.db.closure_fn(clo.name) if isinstance(clo, Agg) else None
+    if body is None:
+        return NotImplemented
+    d = v.discr
+    is_some = Bool(True).t if (isinstance(d, int) and d == 1) else (Bool(False).t if isinstance(d, int) else simp(d == BV(1, 64)))
+    t, f = ex.branch(st, is_some)
+    outs = []
+    if t:
+        s2 = st.fork() if f else st
+        ex.assume(s2, is_some)
+        h, a = generic_args((ctx.dest_ty or '').strip())
+        outs.append((s2, mk_result(ex, ok=payload(ex, s2, v, 1, 0, a[0] if a else 'unknown'))))
+    if f:
+        ex.assume(st, z3.Not(is_some))
+        r = ex.call_sub(st, body, [clo])
+        if r is None:
+            return NotImplemented
+        outs.append((st, mk_result(ex, err=r)))
+    return outs
+
+
+@contract(r'^Vec::<.*>::reserve$|^Vec::<.*>::reserve_exact$|^Vec::<.*>::shrink_to_fit$')
+def vec_reserve(ctx):
+    return UNIT
+
+
+@contract(r'^Vec::<.*>::clear$')
+def vec_clear_generic(ctx):
+    ex, st = ctx.ex, ctx.st
+    v, loc = seq_loc(ex, st, ctx.args[0])
+    if loc is None or not isinstance(v, SeqV):
+        return NotImplemented
+    ex.store(st, loc[0], loc[1], SeqV.from_items([], v.elem_ty, v.kind))
+    return UNIT
+
+
+@contract(r'^Result::<.*>::and_then::<.*>$')
+def result_and_then(ctx):
+    """Result::and_then(f): Err(e) -> Err(e); Ok(x) -> f(x) with the real closure body"""
+    ex, st = ctx.ex, ctx.st
+    v, _ = to_enum(ex, st, ctx.args[0])
+    clo = ctx.args[1]
+    body = ex.db.closure_fn(clo.name) if isinstance(clo, Agg) else None
+    if body is None:
+        return NotImplemented
+    d = v.discr
+    if isinstance(d, int):
+        is_ok = z3.BoolVal(d == 0)
+    else:
+        is_ok = simp(d == BV(0, 64))
+    t, f = ex.branch(st, is_ok)
+    outs = []
+    if f:
+        s2 = st.fork() if t else st
+        ex.assume(s2, z3.Not(is_ok))
+        errv = v.variants.get(1, {}).get(0)
+        if errv is None:
+            errv = Opaque('error', 'err')
+        outs.append((s2, mk_result(ex, err=errv)))
+    if t:
+        ex.assume(st, is_ok)
+        hm = re.match(r'^Result::<(.*)>::and_then::<', ctx.callee, re.S)
+        ta = generic_args('Result<%s>' % hm.group(1))[1] if hm else []
+        okv = payload(ex, st, v, 0, 0, ta[0] if ta else 'unknown')
+        rs = ex.call_sub_states(st, body, [clo, okv])
+        if rs is None:
+            return NotImplemented
+        outs += rs
+    return outs
+
+
+def apply_callable(ctx, f, args, dest_ty=None):
+    """call a closure value or a function item (`<T as Trait>::m` passed as a value) with all effects and forks;
+    returns [(state, ret)] or None when the callee cannot be run"""
+    from engine import CallCtx
+    ex, st = ctx.ex, ctx.st
+    if isinstance(f, Agg):
+        body = ex.db.closure_fn(f.name)
+        if body is None:
+            return None
+        return ex.call_sub_states(st, body, [f] + list(args))
+    if isinstance(f, Opaque) and isinstance(f.tag, str) and re.search(r'::[A-Za-z_0-9]+$', f.tag.strip()):
+        callee = f.tag.strip()
+        c2 = CallCtx(ex, st, ctx.fr, callee, list(args), dest_ty)
+        for rx, fnc in list(ex.overrides) + list(ex.contracts):
+            if rx.search(callee):
+                try:
+                    r = fnc(c2)
+                except (AttributeError, KeyError, TypeError, IndexError):
+                    r = NotImplemented
+                if r is NotImplemented:
+                    continue
+                if isinstance(r, Push):
+                    return ex.call_sub_states(st, r.fn, r.args)
+                if isinstance(r, list):
+                    return r
+                return [(st, r)]
+        target = ex.db.resolve(callee, ctx.fr.fn, ex)
+        if target is not None:
+            return ex.call_sub_states(st, target, list(args))
+    return None
+
+
+@contract(r'^Result::<.*>::map::<.*>$')
+def result_map(ctx):
+    """Result::map(f): Err(e) -> Err(e); Ok(x) -> Ok(f(x)) with the real closure / function item"""
+    ex, st = ctx.ex, ctx.st
+    v, _ = to_enum(ex, st, ctx.args[0])
+    d = v.discr
+    is_ok = z3.BoolVal(d == 0) if isinstance(d, int) else simp(d == BV(0, 64))
+    t, f = ex.branch(st, is_ok)
+    outs = []
+    if t:
+        s2 = st.fork() if f else st
+        ex.assume(s2, is_ok)
+        hm = re.match(r'^Result::<(.*)>::map::<', ctx.callee, re.S)
+        ta = generic_args('Result<%s>' % hm.group(1))[1] if hm else []
+        okv = payload(ex, s2, v, 0, 0, ta[0] if ta else 'unknown')
+        h, a = generic_args((ctx.dest_ty or '').strip())
+        c2 = type(ctx)(ex, s2, ctx.fr, ctx.callee, ctx.args, ctx.dest_ty)
+        rs = apply_callable(c2, ctx.args[1], [okv], a[0] if a else None)
+        if rs is None:
+            return NotImplemented
+        outs += [(s3, mk_result(ex, ok=r)) for s3, r in rs]
+    if f:
+        if t:
+            ex.assume(st, z3.Not(is_ok))
+        errv = v.variants.get(1, {}).get(0)
+        if errv is None:
+            errv = Opaque('error', 'err')
+        outs.append((st, mk_result(ex, err=errv)))
+    return outs
+
+
+@contract(r'^<([iu](?:8|16|32|64|128|size)) as (?:std::convert::)?TryInto<([iu](?:8|16|32|64|128|size))>>::try_into$'
+          r'|^<([iu](?:8|16|32|64|128|size)) as (?:std::convert::)?TryFrom<([iu](?:8|16|32|64|128|size))>>::try_from$')
+def int_try_into(ctx):
+    """checked integer conversion: Ok(value) iff the value is representable in the destination type"""
+    from engine import INT_TYPES
+    ex, st = ctx.ex, ctx.st
+    m = re.match(r'^<([iu]\w+) as (?:std::convert::)?(TryInto|TryFrom)<([iu]\w+)>>', ctx.callee)
+    src, dst = (m.group(1), m.group(3)) if m.group(2) == 'TryInto' else (m.group(3), m.group(1))
+    a = ctx.args[0]
+    if not isinstance(a, Int) or src not in INT_TYPES or dst not in INT_TYPES:
+        return NotImplemented
+    sb, ss = INT_TYPES[src]
+    db_, ds = INT_TYPES[dst]
+    w = max(sb, db_) + 1
+    wide = z3.SignExt(w - sb, a.t) if ss else z3.ZeroExt(w - sb, a.t)
+    lo = -(1 << (db_ - 1)) if ds else 0
+    hi = (1 << (db_ - 1)) - 1 if ds else (1 << db_) - 1
+    fits = simp(z3.And(wide >= z3.BitVecVal(lo, w), wide <= z3.BitVecVal(hi, w)))
+    if db_ <= sb:
+        out = z3.Extract(db_ - 1, 0, a.t)
+    else:
+        out = z3.SignExt(db_ - sb, a.t) if ss else z3.ZeroExt(db_ - sb, a.t)
+    okv = Int(simp(out), db_, ds)
+    errv = Opaque('std::num::TryFromIntError', 'out of range integral type conversion attempted')
+    t, f = ex.branch(st, fits)
+    outs = []
+    if t:
+        s2 = st.fork() if f else st
+        ex.assume(s2, fits)
+        outs.append((s2, mk_result(ex, ok=okv)))
+    if f:
+        ex.assume(st, z3.Not(fits))
+        outs.append((st, mk_result(ex, err=errv)))
+    return outs
+
+
+@contract(r'^<Box<.*> as Drop>::drop$|^<Vec<.*> as Drop>::drop$|^<(?:std::sync::)?Arc<.*> as Drop>::drop$')
+def container_drop(ctx):
+    return UNIT
